@@ -1,7 +1,7 @@
 #!/bin/sh
 # dev helper: build chk and run one property's monitor, print a summary
 cd /verif/harness || exit 1
-cargo build --profile ${PROFILE:-chk} 2>&1 | grep -E "^error|-->" -A 8 | head -60
+cargo build --profile ${PROFILE:-chk} 2>&1 | grep -E "^error|-->" -A 8 | head -60 | sed "s/^/BUILD: /"
 BIN=target/${PROFILE:-chk}/hv; [ "${PROFILE:-chk}" = release ] && BIN=target/release/hv
 for p in "$@"; do
   $BIN run $p --tier ${TIER:-quick} --seed ${SEED:-1} --stage ${STAGE:-chk} --scale ${SCALE:-100} --out /tmp/$p.json || continue
